@@ -44,6 +44,13 @@ Theorem C20_edges_listed_once : forall qs : list neq, NoDup (gedges (graph_of qs
 Proof. exact edges_nodup. Qed.
 Print Assumptions C20_edges_listed_once.
 
+(* G.edges() as networkx iterates it (Graph.nx_edges: node by node, successors in insertion order — what the correspondence
+   compares with the real graph) lists exactly the edges of is_edge *)
+Theorem C20_networkx_edge_view : forall (qs : list neq) (x n : string),
+  In (x, n) (nx_edges (graph_of qs)) <-> is_edge (graph_of qs) x n = true.
+Proof. exact networkx_edge_view. Qed.
+Print Assumptions C20_networkx_edge_view.
+
 (* one node per left-hand-side term, carrying the normalised equation (the last one that has the term on its left) *)
 Theorem C20_lhs_node_carries_equation : forall (qs1 : list neq) (q : neq) (qs2 : list neq) (n : string),
   In n (nids (nlhs q)) -> (forall q', In q' qs2 -> ~ In n (nids (nlhs q'))) ->
